@@ -15,37 +15,37 @@ import (
 )
 
 type OblReport struct {
-	Name     string `json:"name"`
-	Kind     string `json:"kind"`
-	Result   string `json:"result"`
-	Backend  string `json:"backend,omitempty"`
-	Millis   int64  `json:"solver_ms"`
-	Text     string `json:"text,omitempty"`
-	Status   string `json:"status"` // discharged | failed | known-finding | undecided | canary-ok | canary-PROVED
-	Pos      string `json:"pos,omitempty"`
-	Reproduced bool `json:"reproduced,omitempty"`
-	res      SolveResult
-	obl      *Obl
-	ft       *FnTrans
+	Name       string `json:"name"`
+	Kind       string `json:"kind"`
+	Result     string `json:"result"`
+	Backend    string `json:"backend,omitempty"`
+	Millis     int64  `json:"solver_ms"`
+	Text       string `json:"text,omitempty"`
+	Status     string `json:"status"` // discharged | failed | known-finding | undecided | canary-ok | canary-PROVED
+	Pos        string `json:"pos,omitempty"`
+	Reproduced bool   `json:"reproduced,omitempty"`
+	res        SolveResult
+	obl        *Obl
+	ft         *FnTrans
 }
 
 type FnReport struct {
-	Package     string   `json:"package"`
-	Function    string   `json:"function"`
-	Mode        string   `json:"mode"`
-	Requires    int      `json:"requires"`
-	Ensures     int      `json:"ensures"`
-	Invariants  int      `json:"invariants"`
-	Sites       int      `json:"sites"`
-	Safe        bool     `json:"safe"`
-	Lemma       bool     `json:"lemma,omitempty"`
-	Obligations int      `json:"obligations"`
-	Abstracted  []string `json:"abstractions,omitempty"`
-	Unknown     []string `json:"unknown_calls_havocked,omitempty"`
-	Assumed     []string `json:"assumed_contracts_used,omitempty"`
-	Contracts   []string `json:"verified_contracts_used,omitempty"`
-	Intrinsics  []string `json:"intrinsics_exact,omitempty"`
-	PureCalls   []string `json:"pure_frame_calls_result_havocked,omitempty"`
+	Package      string   `json:"package"`
+	Function     string   `json:"function"`
+	Mode         string   `json:"mode"`
+	Requires     int      `json:"requires"`
+	Ensures      int      `json:"ensures"`
+	Invariants   int      `json:"invariants"`
+	Sites        int      `json:"sites"`
+	Safe         bool     `json:"safe"`
+	Lemma        bool     `json:"lemma,omitempty"`
+	Obligations  int      `json:"obligations"`
+	Abstracted   []string `json:"abstractions,omitempty"`
+	Unknown      []string `json:"unknown_calls_havocked,omitempty"`
+	Assumed      []string `json:"assumed_contracts_used,omitempty"`
+	Contracts    []string `json:"verified_contracts_used,omitempty"`
+	Intrinsics   []string `json:"intrinsics_exact,omitempty"`
+	PureCalls    []string `json:"pure_frame_calls_result_havocked,omitempty"`
 	ConstGlobals []string `json:"package_vars_treated_as_constants,omitempty"`
 }
 
@@ -84,16 +84,16 @@ func keysOfInt(m map[string]int) []string {
 }
 
 type CheckOpts struct {
-	Prop    string
-	Tier    string
-	Repo    string
-	Verif   string
-	Timeout time.Duration
-	Jobs    int
-	Seed    int64
-	Only    string // restrict to functions whose key contains this
-	Dump    string // directory to dump queries to
-	NoReplay bool
+	Prop       string
+	Tier       string
+	Repo       string
+	Verif      string
+	Timeout    time.Duration
+	Jobs       int
+	Seed       int64
+	Only       string // restrict to functions whose key contains this
+	Dump       string // directory to dump queries to
+	NoReplay   bool
 	NoEvidence bool
 }
 
@@ -483,26 +483,26 @@ func finishCheck(o CheckOpts, w *World, reports []*OblReport, fnReports []FnRepo
 	// reported separately (they are not claimed as proved)
 	obligations -= len(knownSeen)
 	cov := map[string]interface{}{
-		"obligations":              obligations,
+		"obligations":                           obligations,
 		"known_finding_obligations_not_counted": len(knownSeen),
-		"discharged":               discharged,
-		"checker_cmd":              "z3-new -smt2 <q> | cvc5 --lang=smt2 --arrays-exp <q> | z3 -smt2 <q>  (portfolio; queries generated by /verif/bin/govc from /repo's SSA)",
-		"trusted_base":             trusted,
-		"functions_under_contract": fnReports,
-		"obligation_list":          oblList,
-		"samples":                  samples,
-		"backends":                 backends,
-		"solver_ms_total":          solverMs,
-		"load_s":                   w.loadSecs,
-		"known_findings_seen":      knownSeen,
-		"failed":                   violations,
-		"unsupported_or_stale":     unsupported,
+		"discharged":                            discharged,
+		"checker_cmd":                           "z3-new -smt2 <q> | cvc5 --lang=smt2 --arrays-exp <q> | z3 -smt2 <q>  (portfolio; queries generated by /verif/bin/govc from /repo's SSA)",
+		"trusted_base":                          trusted,
+		"functions_under_contract":              fnReports,
+		"obligation_list":                       oblList,
+		"samples":                               samples,
+		"backends":                              backends,
+		"solver_ms_total":                       solverMs,
+		"load_s":                                w.loadSecs,
+		"known_findings_seen":                   knownSeen,
+		"failed":                                violations,
+		"unsupported_or_stale":                  unsupported,
 		"thorough_only_obligations_skipped_in_this_tier": skippedThorough,
-		"contracts_source_mirror":  w.mirrorUsed,
-		"assume_clauses_in_contract_files": assumeScan,
-		"vacuity_canaries":         countCanaries(reports),
-		"bounded_standins_not_counted_as_proved": boundedReports,
-		"explanation":              "every obligation is a verification condition generated from the SSA of the real function under the contract in zz_verif_contracts.go; discharged means unsat",
+		"contracts_source_mirror":                        w.mirrorUsed,
+		"assume_clauses_in_contract_files":               assumeScan,
+		"vacuity_canaries":                               countCanaries(reports),
+		"bounded_standins_not_counted_as_proved":         boundedReports,
+		"explanation":                                    "every obligation is a verification condition generated from the SSA of the real function under the contract in zz_verif_contracts.go; discharged means unsat",
 	}
 	ev := Evidence{PropertyID: o.Prop, Tier: o.Tier, Seed: o.Seed, Level: "proof", Coverage: cov, WallS: time.Since(start).Seconds(), Violations: len(violations),
 		Assumptions: propAssumptions(o.Prop, w, fnReports)}
